@@ -42,13 +42,14 @@ class TLCResult:
     def printed(self, tag):
         """All tuples printed with PrintT(<<tag, ...>>), parsed into python lists (robust to interleaving)."""
         res = []
-        needle = '<<"%s"' % tag
+        pat = re.compile(r'<<\s*"%s"' % re.escape(tag))
         i = 0
         out = self.out
         while True:
-            i = out.find(needle, i)
-            if i < 0:
+            m = pat.search(out, i)
+            if not m:
                 break
+            i = m.start()
             depth = 0
             j = i
             instr = False
